@@ -37,9 +37,9 @@ void vt_yield(const char *what);
 long vt_update_f(const void *id, unsigned ks, unsigned vs, unsigned cap, unsigned type, const void *key, const void *val, unsigned long long flags);
 #define bpf_map_update_elem(m, k, v, f) (vt_yield("update"), vt_update_f(VT_DESC(m), (k), (v), (f)))
 #define bpf_map_delete_elem(m, k) (vt_yield("delete"), vt_delete(VT_DESC(m), (k)))
-#define bpf_probe_read(dst, size, src) (memcpy((dst), (src), (size)), 0L)
+#define bpf_probe_read(dst, size, src) (vt_yield("probe_read"), memcpy((dst), (src), (size)), 0L)
 #define bpf_get_current_pid_tgid() (vt_yield("pid_tgid"), (((__u64)vt_current.tgid) << 32 | vt_current.tid))
 #define bpf_get_current_uid_gid() (vt_yield("uid_gid"), (((__u64)vt_current.gid) << 32 | vt_current.uid))
-#define bpf_get_socket_cookie(ctx) ((__u64)0)
+#define bpf_get_socket_cookie(ctx) (vt_yield("cookie"), (__u64)0)
 #define bpf_printk(fmt, ...) ((void)0)
 #endif
